@@ -77,6 +77,80 @@ var c11Ints = map[string][][]int64{
 	"IndentFunc": {{-2, -1, 0, 1, 2, 8, 300}},
 }
 
+// c11DynType picks a type for a dynamically-typed parameter that lies inside (or
+// next to) the function's intended domain, so that the callbacks are reached
+// with shapes they branch on; one time in five any type at all.
+func c11DynType(ctx *Ctx, fn string, i int) cty.Type {
+	r := ctx.R
+	if r.Intn(5) == 0 {
+		return genTy(r, 2, TyOpts{})
+	}
+	e := func() cty.Type { return genTy(r, 1, TyOpts{}) }
+	prim := func() cty.Type { return []cty.Type{cty.String, cty.Number, cty.Bool}[r.Intn(3)] }
+	obj := func() cty.Type {
+		atys := map[string]cty.Type{}
+		for k := 0; k < r.Intn(4); k++ {
+			atys[attrNames[r.Intn(4)]] = e()
+		}
+		return cty.Object(atys)
+	}
+	tup := func() cty.Type {
+		es := make([]cty.Type, r.Intn(4))
+		for k := range es {
+			es[k] = e()
+		}
+		return cty.Tuple(es)
+	}
+	seq := func() cty.Type {
+		if r.Intn(2) == 0 {
+			return cty.List(e())
+		}
+		return tup()
+	}
+	switch fn {
+	case "MergeFunc", "KeysFunc", "ValuesFunc":
+		if r.Intn(2) == 0 {
+			return cty.Map(prim())
+		}
+		return obj()
+	case "LookupFunc":
+		if i == 0 {
+			if r.Intn(2) == 0 {
+				return cty.Map(prim())
+			}
+			return obj()
+		}
+		return prim()
+	case "SetUnionFunc", "SetIntersectionFunc", "SetSubtractFunc", "SetSymmetricDifferenceFunc", "SetHasElementFunc", "SetProductFunc":
+		switch r.Intn(4) {
+		case 0:
+			return cty.Set(prim())
+		case 1:
+			return cty.List(prim())
+		case 2:
+			return cty.Set(tup())
+		}
+		return cty.Set(cty.Number)
+	case "ElementFunc", "IndexFunc", "HasIndexFunc", "SliceFunc", "ConcatFunc", "CoalesceListFunc", "ReverseListFunc", "ChunklistFunc", "DistinctFunc", "ContainsFunc", "ZipmapFunc", "LengthFunc":
+		switch r.Intn(5) {
+		case 0:
+			return cty.Set(prim())
+		case 1:
+			return cty.Map(prim())
+		}
+		return seq()
+	case "FlattenFunc":
+		switch r.Intn(3) {
+		case 0:
+			return cty.List(cty.List(prim()))
+		case 1:
+			return cty.Tuple([]cty.Type{cty.Set(prim()), cty.List(prim()), prim()})
+		}
+		return cty.List(cty.Set(cty.List(prim())))
+	}
+	return genTy(r, 1, TyOpts{})
+}
+
 func c11GenArg(ctx *Ctx, fn string, i int, p function.Parameter, inject bool) cty.Value {
 	r := ctx.R
 	t := p.Type
@@ -132,6 +206,9 @@ func c11GenArg(ctx *Ctx, fn string, i int, p function.Parameter, inject bool) ct
 	}
 	if inject && t == cty.DynamicPseudoType && r.Intn(12) == 0 {
 		return cty.DynamicVal
+	}
+	if t == cty.DynamicPseudoType {
+		t = c11DynType(ctx, fn, i)
 	}
 	if inject && r.Intn(14) == 0 {
 		// a value of an unrelated type (argument checking must answer, not the callbacks)
